@@ -3,6 +3,7 @@ CONSTANTS
   N = 4
   W = {1, 2, 3, 4}
   Primes = {2, 3}
+INVARIANT ThCliques
 INVARIANT ThWellFormed
 INVARIANT ThStrict
 INVARIANT ThDefBetti
